@@ -1,4 +1,6 @@
 import Logrange.Proofs.Points
+import Logrange.Proofs.WriteLoopHull
+import Logrange.Proofs.ChunkHist
 import Logrange.Model.RangedIter
 /-!
 # C02 — Time-range queries return exactly the events whose timestamp is in range
@@ -11,7 +13,8 @@ Every theorem here is an obligation of the C02 check; the audit lists their axio
 
 Regenerated facts the statements depend on (`Logrange.Generated.C02`): `lowerAskMinusOne` (the lower bound handed to
 the index is `MinTs − 1`, fix 94ffdf8), `fitLower/UpperInclusive` (`fitInRange` uses `>=` / `<=`),
-`rangeDefaultLower` (0 in the code: finding #3), `iwrapperMin/MaxZeroSentinel` (finding #2).
+`rangeDefaultLower` (MinInt64 since fix f2a8db2), `iwrapperMin/MaxZeroSentinel`, `iwrapperSeenFlag` (flag instead of the 0
+sentinel since fix 6624754), `rebuildSegmentMaxInit` (MinInt64 since fix db44772).
 -/
 namespace Logrange.Props.C02
 open Logrange Logrange.Points
@@ -161,25 +164,144 @@ example : add cexPts ⟨⟨300, 900⟩, ⟨310, 1199⟩⟩ = cexPts ++ [⟨310, 
 example : add cexPts ⟨⟨250, 900⟩, ⟨260, 1199⟩⟩ = [⟨100, 0⟩, ⟨200, 299⟩, ⟨200, 599⟩, ⟨300, 1199⟩] := by decide  -- merge
 example : add cexPts ⟨⟨50, 900⟩, ⟨60, 1199⟩⟩ = [⟨50, 0⟩, ⟨300, 1199⟩] := by decide               -- collapse
 
-/-! ## counterexamples for the open findings -/
+/-! ## the three repaired defects (#2, #3, #45) as positive theorems -/
 
-/-- #2 — `iwrapper`'s 0 sentinel: the batch 5, 0, 7 is reported with the hull [7, 7]; `RANGE [0:6]` then excludes the
-whole chunk although records 0 and 1 are in range. With a flag instead of the sentinel the hull is [0, 7]. -/
-def cexIW : WriteLoop.IW := ([5, 0, 7] : List Int).foldl WriteLoop.IW.see {}
-def cexIWRepaired : WriteLoop.IW := ([5, 0, 7] : List Int).foldl WriteLoop.IW.see WriteLoop.IW.repaired
-theorem cex_zero_sentinel :
-    (cexIW.minTs, cexIW.maxTs) = (7, 7) ∧
-    ¬ inWindow (window ⟨cexIW.minTs, cexIW.maxTs⟩ none ⟨0, 6⟩) 0 ∧ inRange ⟨0, 6⟩ 5 ∧
-    (cexIWRepaired.minTs, cexIWRepaired.maxTs) = (0, 7) ∧
-    inWindow (window ⟨cexIWRepaired.minTs, cexIWRepaired.maxTs⟩ none ⟨0, 6⟩) 0 := by
-  decide
+/-- **iwrapper_hull_exact** (fix 6624754, was finding #2): the hull `Service.Write` reports for a batch is the true
+minimum and maximum of the batch's timestamps — for EVERY batch, including timestamps 0 and negative ones. Depends on the
+regenerated facts that `iwrapper.Get` no longer compares with 0 and keeps a seen-flag. -/
+theorem iwrapper_hull_exact (t : Int) (rest : List Int) :
+    let iw := (t :: rest).foldl WriteLoop.IW.see {}
+    (∀ x ∈ t :: rest, iw.minTs ≤ x ∧ x ≤ iw.maxTs) ∧ iw.minTs ∈ t :: rest ∧ iw.maxTs ∈ t :: rest := by
+  have f1 : Generated.C02.iwrapperMinZeroSentinel = false := by decide
+  have f2 : Generated.C02.iwrapperMaxZeroSentinel = false := by decide
+  have f3 : Generated.C02.iwrapperSeenFlag = true := by decide
+  exact WriteLoop.hull_exact_of_flags {} f1 f2 rfl t rest
 
-/-- #3 — a missing lower bound becomes 0: `RANGE [:6]` drops the event with timestamp −5 -/
-theorem cex_open_lower_bound :
-    (RangedIter.rangeOf none (some 6)) = (0, 6) ∧
-    RangedIter.fitInRange (RangedIter.rangeOf none (some 6)).1 (RangedIter.rangeOf none (some 6)).2 (-5) = false ∧
-    ((-5 : Int) ≤ 6) := by
-  decide
+/-- the former witness of #2: the batch 5, 0, 7 now gets the hull [0, 7] and `RANGE [0:6]` keeps position 0 -/
+example : ((([5, 0, 7] : List Int).foldl WriteLoop.IW.see {}).minTs, (([5, 0, 7] : List Int).foldl WriteLoop.IW.see {}).maxTs) = (0, 7) ∧
+    inWindow (window ⟨0, 7⟩ none ⟨0, 6⟩) 0 := by decide
+
+/-- **open_lower_bound_complete** (fix f2a8db2, was finding #3): a missing lower bound is the smallest int64, so the
+range re-check of `RANGE [:h]` keeps exactly the events with `ts ≤ h` — negative timestamps included — and
+`window_complete` (whose range is `rangeOf none (some h)`) covers them. -/
+theorem open_lower_bound_complete (h t : Int) (ht : minI64 ≤ t) :
+    RangedIter.fitInRange (RangedIter.rangeOf none (some h)).1 (RangedIter.rangeOf none (some h)).2 t = decide (t ≤ h) ∧
+    (t ≤ h → inRange ⟨(RangedIter.rangeOf none (some h)).1, (RangedIter.rangeOf none (some h)).2⟩ t) := by
+  have f1 : Generated.C02.rangeDefaultLower = minI64 := by decide
+  have h1 : Generated.C02.fitLowerInclusive = true := by decide
+  have h2 : Generated.C02.fitUpperInclusive = true := by decide
+  simp only [RangedIter.rangeOf, Option.getD_none, Option.getD_some, f1, RangedIter.fitInRange, h1, h2, if_true, inRange]
+  constructor
+  · by_cases a : t ≤ h <;> simp [a, ht]
+  · intro a; exact ⟨ht, a⟩
+
+example : RangedIter.fitInRange (RangedIter.rangeOf none (some 6)).1 (RangedIter.rangeOf none (some 6)).2 (-5) = true := by decide
+
+/-- **rebuild_segment_max_exact** (fix db44772, was finding #45): `rebuildIndexInt` starts a segment's maximum at the
+smallest int64, so the maximum recorded for a segment is the true maximum of its (int64) timestamps — negative ones
+included; the index point written for the segment is attained by a record of the segment. -/
+theorem rebuild_segment_max_exact (t : Int) (rest : List Int) (hlow : ∀ x ∈ t :: rest, minI64 ≤ x) :
+    let m := (t :: rest).foldl max Generated.C02.rebuildSegmentMaxInit
+    (∀ x ∈ t :: rest, x ≤ m) ∧ m ∈ t :: rest := by
+  have f1 : Generated.C02.rebuildSegmentMaxInit = minI64 := by decide
+  have gen : ∀ (l : List Int) (a : Int), (∀ x ∈ l, x ≤ l.foldl max a) ∧ a ≤ l.foldl max a ∧ (l.foldl max a = a ∨ l.foldl max a ∈ l) := by
+    intro l
+    induction l with
+    | nil => intro a; simp
+    | cons y ys ih =>
+      intro a
+      obtain ⟨i1, i2, i3⟩ := ih (max a y)
+      simp only [List.foldl_cons]
+      refine ⟨?_, by omega, ?_⟩
+      · intro x hx
+        cases hx with
+        | head => omega
+        | tail _ hx' => exact i1 x hx'
+      · rcases i3 with i3 | i3
+        · by_cases hay : y ≤ a
+          · left; rw [i3]; omega
+          · right; rw [i3]; simp; left; omega
+        · right; exact List.mem_cons_of_mem _ i3
+  obtain ⟨g1, g2, g3⟩ := gen (t :: rest) Generated.C02.rebuildSegmentMaxInit
+  refine ⟨g1, ?_⟩
+  rcases g3 with g3 | g3
+  · -- the maximum stayed at the initial value: then t = minI64 is that value
+    have ht := g1 t List.mem_cons_self
+    have hl := hlow t List.mem_cons_self
+    rw [g3, f1] at ht
+    have : t = minI64 := by omega
+    rw [g3, f1, ← this]; exact List.mem_cons_self
+  · exact g3
+
+example : ([-30, -20, -10] : List Int).foldl max Generated.C02.rebuildSegmentMaxInit = -10 := by decide
+
+/-! ## end to end on monotone histories (Points level) -/
+
+/-- the hull `Service.Write`'s `iwrapper` reports for the records `t :: rest` written at positions `a …` is their
+`ExactHull` — the hypothesis of the history theorems below is what the write loop delivers (single-chunk `Write` call). -/
+theorem exactHull_of_iwrapper (tsOf : Nat → Int) (a : Nat) (t : Int) (rest : List Int)
+    (hl : ∀ i (h : i < (t :: rest).length), tsOf (a + i) = (t :: rest)[i]) :
+    ChunkHist.ExactHull tsOf a (t :: rest).length (((t :: rest).foldl WriteLoop.IW.see {}).minTs)
+      (((t :: rest).foldl WriteLoop.IW.see {}).maxTs) := by
+  obtain ⟨h1, h2, h3⟩ := iwrapper_hull_exact t rest
+  refine ⟨?_, ?_, ?_⟩
+  · intro q hq1 hq2
+    have hi : q - a < (t :: rest).length := by omega
+    have := hl (q - a) hi
+    have e : a + (q - a) = q := by omega
+    rw [e] at this
+    rw [this]
+    exact h1 _ (List.getElem_mem hi)
+  · obtain ⟨i, hi, e⟩ := List.getElem_of_mem h3
+    exact ⟨a + i, by omega, by omega, by rw [hl i hi, e]⟩
+  · obtain ⟨i, hi, e⟩ := List.getElem_of_mem h2
+    exact ⟨a + i, by omega, by omega, by rw [hl i hi, e]⟩
+
+/-- **monotone_history_sound**: over ANY history of `OnWrite` notifications of a chunk (skip / big-gap corruption /
+append decisions as `cindex.onWrite` takes them, any sparsity constants) whose timestamps are monotone non-decreasing in
+stored order and whose batches carry their exact hulls, the chunk's hull and index stay sound. -/
+theorem monotone_history_sound {tsOf : Nat → Int} (sparse bigGap : Nat) (bs : List ChunkHist.Batch)
+    (hm : Monotone tsOf (ChunkHist.total bs)) (he : ChunkHist.BatchesExact tsOf 0 bs) :
+    ChunkHist.Sound tsOf (ChunkHist.run sparse bigGap bs) ∧ (ChunkHist.run sparse bigGap bs).n = ChunkHist.total bs :=
+  ChunkHist.run_sound sparse bigGap bs hm he
+
+/-- the window of any range over the index such a history leaves contains every in-range position -/
+theorem window_complete_monotone {tsOf : Nat → Int} (sparse bigGap : Nat) (bs : List ChunkHist.Batch)
+    (hm : Monotone tsOf (ChunkHist.total bs)) (he : ChunkHist.BatchesExact tsOf 0 bs) (hn : ChunkHist.total bs ≤ maxU32)
+    (hlow : ∀ q, q < ChunkHist.total bs → minI64 ≤ tsOf q) (r : TmRange) (p : Nat) (hp : p < ChunkHist.total bs)
+    (hr : inRange r (tsOf p)) :
+    ∃ h, (ChunkHist.run sparse bigGap bs).hull = some h ∧
+      inWindow (window h (ChunkHist.idxOf (ChunkHist.run sparse bigGap bs)) r) p :=
+  ChunkHist.window_complete_monotone sparse bigGap bs hm he hn hlow r p hp hr
+
+/-- **range_eq_filter_monotone** — the core of C02 for one chunk, end to end at the Points level: after any monotone
+write history (write loop's exact hulls → `onWrite`'s skip/append decisions → `updatePoss` window → `fitInRange` re-check)
+the ranged read of the chunk is EXACTLY the filter of its full read, for every range. -/
+theorem range_eq_filter_monotone {tsOf : Nat → Int} (sparse bigGap : Nat) (bs : List ChunkHist.Batch)
+    (hm : Monotone tsOf (ChunkHist.total bs)) (he : ChunkHist.BatchesExact tsOf 0 bs) (hn : ChunkHist.total bs ≤ maxU32)
+    (hlow : ∀ q, q < ChunkHist.total bs → minI64 ≤ tsOf q) (hpos : 0 < ChunkHist.total bs) (r : TmRange) :
+    ∃ h, (ChunkHist.run sparse bigGap bs).hull = some h ∧
+      chunkRangedRead h (ChunkHist.idxOf (ChunkHist.run sparse bigGap bs)) r tsOf (ChunkHist.total bs) =
+        (List.range (ChunkHist.total bs)).filter (fun p => decide (inRange r (tsOf p))) := by
+  obtain ⟨hs, hnn⟩ := ChunkHist.run_sound sparse bigGap bs hm he
+  obtain ⟨h, hh, hsound, q, hq, hqe⟩ := hs.hull (by omega)
+  rw [hnn] at hsound hq
+  refine ⟨h, hh, ?_⟩
+  apply range_eq_filter_chunk h _ r hsound _ hn (by rw [hqe]; exact hlow q hq)
+  intro pts hpts
+  unfold ChunkHist.idxOf at hpts
+  by_cases hc : (ChunkHist.run sparse bigGap bs).corrupted = true
+  · simp [hc] at hpts
+  · have hc' : (ChunkHist.run sparse bigGap bs).corrupted = false := by simpa using hc
+    simp [hc'] at hpts
+    subst hpts
+    have := hs.index hc'
+    rw [hnn] at this
+    exact this
+
+example : (ChunkHist.run 250 5000 [⟨300, 100, 200⟩, ⟨10, 200, 205⟩, ⟨300, 205, 300⟩]).pts = [⟨100, 0⟩, ⟨200, 299⟩, ⟨300, 609⟩] := by decide
+
+/-! ## counterexample for the open finding #4 -/
 
 /-- #4 — a batch the sparse index skipped lies below the indexed interval: points (100,0),(200,299) for records 0…299,
 records 300…309 carry 50…59; `RANGE [55:55]` gets the window [0, 0] and position 305 (ts 55) is hidden.
@@ -191,26 +313,14 @@ theorem cex_skipped_batch_below :
     ¬ inWindow (window ⟨50, 200⟩ (some cexSkipPts) ⟨55, 55⟩) 305 ∧ ¬ ((lastD cexSkipPts).ts ≤ cexSkipTs 305) := by
   decide
 
-/-- #41 (new) — `rebuildIndexInt` starts every segment's maximum at 0: a chunk with the records −30, −20, −10 is rebuilt
-to the points (−30,0),(−30,0),(0,3); the next indexed write (16 records with ts −9) merges into (−30,0),(−30,0),(0,18);
-249 further records (ts −8 … −7, monotone) are skipped by the sparse index — and `less (−8)` answers 18 although
-position 19 carries −8: the tail is below the last point (`TailAbove` fails although the stream is monotone). With the
-segment maximum started at the first timestamp the same steps give the sound points (−30,0),(−30,0),(−10,3),(−9,18). -/
-theorem cex_rebuild_negative_max :
-    add [⟨-30, 0⟩, ⟨-30, 0⟩] ⟨⟨-30, 0⟩, ⟨max Generated.C02.rebuildSegmentMaxInit (-10), 3⟩⟩ = [⟨-30, 0⟩, ⟨-30, 0⟩, ⟨0, 3⟩] ∧
-    add [⟨-30, 0⟩, ⟨-30, 0⟩, ⟨0, 3⟩] ⟨⟨-9, 3⟩, ⟨-9, 18⟩⟩ = [⟨-30, 0⟩, ⟨-30, 0⟩, ⟨0, 18⟩] ∧
-    lessPos [⟨-30, 0⟩, ⟨-30, 0⟩, ⟨0, 18⟩] (-8) = some 18 ∧
-    add (add [⟨-30, 0⟩, ⟨-30, 0⟩] ⟨⟨-30, 0⟩, ⟨-10, 3⟩⟩) ⟨⟨-9, 3⟩, ⟨-9, 18⟩⟩ = [⟨-30, 0⟩, ⟨-30, 0⟩, ⟨-10, 3⟩, ⟨-9, 18⟩] ∧
-    lessPos [⟨-30, 0⟩, ⟨-30, 0⟩, ⟨-10, 3⟩, ⟨-9, 18⟩] (-8) = none := by
-  decide
-
 /-! ## full statements that are only partly proved -/
 
 /-- Top level, full strength: for EVERY history of writes and rebuilds the ranged read of a partition equals the
-filtered full read. False as it stands (findings #2, #3, #4, #24); proved per chunk under `HullSound`/`IndexSound`
-(`range_eq_filter_chunk`), which monotone histories without the #2/#3 classes maintain (`addInterval_preserves_append`,
-`skip_preserves`, `append_case_of_monotone`, `gapCovered_of_monotone`). The composition over the write loop, the block
-tree and the iterator is checked by the harness (IMPL = MODEL = SPEC on every monotone history), not proved. -/
+filtered full read. False as it stands (findings #4, #24, #46); proved per chunk under `HullSound`/`IndexSound`
+(`range_eq_filter_chunk`), and end to end for monotone histories at the Points level (`range_eq_filter_monotone`). What
+remains tested only (IMPL = MODEL = SPEC on every monotone history): that the block tree answers like the flat point list,
+the chunk roll-over of the write loop (one `OnWrite` per chunk with the exact hull of the call so far), index rebuilds,
+and the stepping of `JIterator`/`chkSelector` inside the windows. -/
 def range_eq_filter_full : Prop :=
   ∀ (maxChunk : Nat) (batches : List (List Int)) (lo hi : Option Int),
     let (wj, cidx) := batches.foldl (fun (acc : WriteLoop.J × CIndex.St) b =>
